@@ -84,7 +84,7 @@ func rulesC20(c *Ctx) {
 			return out
 		}
 		c.Analysed[fnName] = true
-		for _, b := range fn.Blocks {
+		for _, b := range blocksIP(fn) {
 			for _, in := range b.Instrs {
 				switch x := in.(type) {
 				case *ssa.MapUpdate:
@@ -288,7 +288,7 @@ func rulesC20(c *Ctx) {
 				continue
 			}
 			var vals []string
-			for _, b := range fn.Blocks {
+			for _, b := range blocksIP(fn) {
 				for _, in := range b.Instrs {
 					if st, isSt := in.(*ssa.Store); isSt {
 						if fa, isFa := st.Addr.(*ssa.FieldAddr); isFa && fieldName(fa.X.Type(), fa.Field) == ht.idx {
@@ -318,7 +318,7 @@ func rulesC20(c *Ctx) {
 			if fn.Name() == "Swap" || fn.Name() == "Pop" || fn.Name() == "Push" {
 				continue
 			}
-			for _, b := range fn.Blocks {
+			for _, b := range blocksIP(fn) {
 				for _, in := range b.Instrs {
 					st, isSt := in.(*ssa.Store)
 					if !isSt {
@@ -343,7 +343,7 @@ func rulesC20(c *Ctx) {
 		if !strings.Contains(fname(fn), "mainQueueScheduler") && !strings.Contains(fname(fn), "senderTxHeap") {
 			continue
 		}
-		for _, b := range fn.Blocks {
+		for _, b := range blocksIP(fn) {
 			for _, in := range b.Instrs {
 				bo, ok := in.(*ssa.BinOp)
 				if !ok {
